@@ -290,6 +290,9 @@ def run(ctx, rep):
 
     # ---- R2.9 hand-written discriminant tables (SmallType, CimMode) and SMALL units
     hand_tables(ctx, rep)
+    # ---- the race-length byte is a specification table too (byte ranges -> practice / laps / hours)
+    from props import c15
+    c15.racelaps_table(ctx, rep)
 
 
 def hand_tables(ctx, rep):
